@@ -155,7 +155,8 @@ def parse_sidecar(text, src):
                 cur.loops[int(arg)] = sub
             elif d == '@closure':
                 sub = {'_kind': 'closure', 'params': None, 'ret': None, 'requires': [], 'ensures': []}
-                cur.closures[int(arg)] = sub
+                # `@closure 2` = second closure in source order; `@closure ~text` = the first closure whose body contains text
+                cur.closures[arg if arg.startswith('~') else int(arg)] = sub
             elif d == '@endsub':
                 sub = None
             elif d == '@binder':
@@ -364,6 +365,71 @@ def apply_rules(text, relpath):
         count('R10')
         return m.group(0).replace('#[derive(' + derive + ')]', '#[derive(' + derive + ', Structural)]', 1)
     text = re.sub(r'#\[derive\(([^\]]*)\)\]\s*(?:pub(?:\([a-z]+\))?\s+)?(enum|struct)\s+(\w+)\s*\{([^{}]*)\}', add_structural, text)
+    # R11: debug/release configurations (C01 quantifies over builds with and without debug assertions)
+    text = sub('R11', r'\bcfg!\s*\(\s*debug_assertions\s*\)', 'vf_cfg_debug_assertions()', text)
+    text = sub('R11', r'\bcfg!\s*\(\s*not\s*\(\s*debug_assertions\s*\)\s*\)', '(!vf_cfg_debug_assertions())', text)
+    while True:
+        bb, _ = rs.blank(text)
+        m = re.search(r'\bdebug_assert(_eq|_ne)?!\s*\(', bb)
+        if not m:
+            break
+        o = m.end() - 1
+        cpos = rs.match_bracket(bb, o)
+        inner_b = bb[o + 1:cpos]
+        parts, depth, last = [], 0, 0
+        for k, ch in enumerate(inner_b):
+            if ch in '([{':
+                depth += 1
+            elif ch in ')]}':
+                depth -= 1
+            elif ch == ',' and depth == 0:
+                parts.append(text[o + 1 + last:o + 1 + k])
+                last = k + 1
+        parts.append(text[o + 1 + last:cpos])
+        if m.group(1) == '_eq':
+            cond = '(%s) == (%s)' % (parts[0].strip(), parts[1].strip())
+        elif m.group(1) == '_ne':
+            cond = '(%s) != (%s)' % (parts[0].strip(), parts[1].strip())
+        else:
+            cond = re.sub(r'\s+', ' ', parts[0]).strip()
+        text = text[:m.start()] + 'vf_debug_assert(' + cond + ')' + text[cpos + 1:]
+        count('R11')
+    while True:
+        bb, _ = rs.blank(text)
+        m = re.search(r'#\[cfg\(\s*(not\s*\(\s*)?debug_assertions\s*\)?\s*\)\]', bb)
+        if not m:
+            break
+        st = rs.skip_ws(bb, m.end())
+        if re.match(r'(let|fn|pub|const|static|use|impl|struct|enum|mod|type)\b', bb[st:]):
+            raise LostAnchor('R11: #[cfg(debug_assertions)] on a declaration is not handled (%s)' % relpath)
+        k = st
+        while k < len(bb):
+            ch = bb[k]
+            if ch in '([':
+                k = rs.match_bracket(bb, k) + 1
+                continue
+            if ch == '{':
+                k2 = rs.match_bracket(bb, k)
+                nx = rs.skip_ws(bb, k2 + 1)
+                if bb.startswith('else', nx):
+                    k = nx + 4
+                    continue
+                if nx < len(bb) and bb[nx] == ';':
+                    k = nx
+                else:
+                    k = k2
+                break
+            if ch == ';':
+                break
+            k += 1
+        cond = '!vf_cfg_debug_assertions()' if m.group(1) else 'vf_cfg_debug_assertions()'
+        stmt = text[st:k + 1]
+        text = text[:m.start()] + 'if %s { %s }' % (cond, stmt) + text[k + 1:]
+        count('R11')
+    bb, _ = rs.blank(text)
+    other = [x for x in re.findall(r'#\[cfg\(([^\]]*)\)\]|\bcfg!\s*\(([^)]*)\)', bb) if (x[0] or x[1]).strip() not in ('test',)]
+    if other:
+        raise LostAnchor('conditional compilation other than cfg(test) / cfg(debug_assertions) in %s: %s' % (relpath, other[:2]))
     # R1
     text = sub('R1', r'\|_\|', '|_vf|', text)
     # R2
@@ -532,9 +598,19 @@ class Gen:
                 if any(kw != 'for' for _, kw in bare):
                     ind = re.match(r'[ \t]*', text[f.line_start:]).group(0)
                     edits.append((f.line_start, f.line_start, '%s#[verifier::exec_allows_no_decreases_clause]%s\n' % (ind, TAG)))
-        if f.has_body and getattr(self, 'new_fn_names', None) and f.name not in self.new_fn_names:
+        if f.has_body and getattr(self, 'new_fn_keys', None) and f.key not in self.new_fn_keys:
             body_b = b[f.body_open:f.body_close]
-            called = [n for n in self.new_fn_names if re.search(r'\b%s\s*\(' % re.escape(n), body_b)]
+            called = []
+            for nk in self.new_fn_keys:
+                n = nk.split('::')[-1]
+                owner = nk.split('::')[-2] if '::' in nk else ''
+                # a call is `self.n(`, `Self::n(`, `Owner::n(`, a path call `..::n(` or a plain `n(`; a method call on
+                # some other receiver (`reader.len()`) is NOT taken for a call of a new `len`
+                pat = r'(\bself\s*\.\s*%s\s*\(|\bSelf::%s\s*\(|\b%s::%s\s*\(|(?<![\w.])%s\s*\()' % (
+                    re.escape(n), re.escape(n), re.escape(owner.strip('<>').split(' ')[0]) or 'Self', re.escape(n), re.escape(n))
+                if re.search(pat, body_b):
+                    called.append(n)
+                    self.new_fn_callers.setdefault(nk, []).append(f.key)
             if called:
                 self.lose(f, 'calls function(s) that are new in this tree and carry no contract: %s' % ', '.join(called))
         if c is None and not (self.canary and f.has_body):
@@ -630,10 +706,17 @@ class Gen:
         if c.closures:
             cls = rs.find_closures(b, lo, hi)
             for k, spec in c.closures.items():
-                if k < 1 or k > len(cls):
-                    self.lose(f, 'closure %d not found (%d closures)' % (k, len(cls)))
-                    continue
-                cl = cls[k - 1]
+                if isinstance(k, str):
+                    hit = [cl0 for cl0 in cls if k[1:] in text[cl0['body'][0]:cl0['body'][1]]]
+                    if not hit:
+                        self.lose(f, 'closure containing "%s" not found' % k[1:])
+                        continue
+                    cl = hit[0]
+                else:
+                    if k < 1 or k > len(cls):
+                        self.lose(f, 'closure %d not found (%d closures)' % (k, len(cls)))
+                        continue
+                    cl = cls[k - 1]
                 if spec['params'] is not None:
                     edits.append((cl['params'][0], cl['params'][1], spec['params']))
                 sl = []
@@ -861,12 +944,16 @@ class Gen:
                 if os.path.exists(fp):
                     walk(fp, (modpath + '::' if modpath else '') + name)
         walk(os.path.join(self.src_root, 'lib.rs'), '')
-        self.new_fn_names = sorted({k.split('::')[-1] for k in found if k not in known})
+        self.new_fn_keys = sorted(k for k in found if k not in known)
+        self.new_fn_names = sorted({k.split('::')[-1] for k in self.new_fn_keys})
+        self.new_fn_callers = {k: [] for k in self.new_fn_keys}
         RULES_APPLIED.clear()
 
     def generate(self, prelude_text, spec_text):
         self.labels = []
         self.new_fn_names = []
+        self.new_fn_keys = []
+        self.new_fn_callers = {}
         self.prescan_new_functions()
         body = self.process_file(os.path.join(self.src_root, 'lib.rs'), '')
         # a contracted function that no longer exists (renamed, inlined, removed): its contract is dropped and the
@@ -979,6 +1066,7 @@ def build_image(repo_src='/repo/src', vf_dir=HERE, canary=False, extra_sidecars=
     maps['external_bodies'] = g.ext_bodies
     maps['lost_anchors'] = g.lost
     maps['forced_external'] = g.forced
+    maps['new_functions'] = getattr(g, 'new_fn_callers', {})
     maps['missing_functions'] = {k: sorted({p for lab, _ in contracts[k].requires + contracts[k].ensures if lab for p in lab['props']})
                                  for k in getattr(g, 'missing', [])}
     maps['dropped_statics'] = sorted(DROP_STATICS)
